@@ -120,7 +120,13 @@ func (this *RaftTransport) Send(ctx context.Context, group *RaftGroup, messages 
 }
 
 func (this *RaftTransport) addNodeAddress(nodeId uint64, address string) {
-	this.clusterConn.AddNode(nodeId, address)
+	if this.clusterConn.AddNode(nodeId, address) {
+		// A client created before (on a connection dialed by an address learned from
+		// another member's list) may lead to an address the node no longer has
+		this.nodeClientsMu.Lock()
+		delete(this.nodeClients, nodeId)
+		this.nodeClientsMu.Unlock()
+	}
 }
 
 func (this *RaftTransport) removeNodeAddress(nodeId uint64) {
